@@ -41,7 +41,7 @@ fn sha256d(b: &[u8]) -> [u8; 32] {
 }
 
 /// two raw bitcoin transactions: A (coinbase-like input) and B spending A:0; returns (txid_display, raw)
-fn btc_txs() -> Vec<([u8; 32], Vec<u8>)> {
+pub fn btc_txs() -> Vec<([u8; 32], Vec<u8>)> {
     let mk = |prev: [u8; 32], vout: u32, outs: &[(u64, &[u8])]| -> Vec<u8> {
         let mut t = vec![];
         t.extend_from_slice(&2u32.to_le_bytes());
@@ -68,6 +68,19 @@ fn btc_txs() -> Vec<([u8; 32], Vec<u8>)> {
         d
     };
     vec![(disp(a_hash), a), (disp(sha256d(&b)), b)]
+}
+
+/// ABI call data `getTxDetails(txid of the spending transaction)` for the 0xfd helper, and the override map that
+/// supplies both raw transactions (used by C10: an override given to a read must not reach a later transaction)
+pub fn btc_details_calldata() -> Vec<u8> {
+    getTxDetailsCall::new((btc_txs()[1].0.into(),)).abi_encode()
+}
+pub fn btc_hexes() -> serde_json::Map<String, Value> {
+    let mut hexes = serde_json::Map::new();
+    for (id, raw) in &btc_txs() {
+        hexes.insert(hex0x(id), json!(hex0x(raw)));
+    }
+    hexes
 }
 
 fn b64(prefix: u8, body: &[u8], pad: &str) -> String {
